@@ -280,7 +280,10 @@ def judge(case, obs, wdir, originals):
         what = 'planned-but-not-written' if only_plan and not only_real else \
             'written-but-not-planned' if only_real and not only_plan else 'planned-and-written-differ'
         if what == 'planned-but-not-written' and obs['lost_after']:
-            what += f':items-become-external-after-{obs["lost_after"]}'
+            # one root cause whichever renaming step triggers it (DependencyTransformation or ModuleWrapTransformation):
+            # the converting scheduler loses the renamed items, they become ExternalItems and their files are not written
+            step = obs["lost_after"]
+            what += ':items-become-external-after-' + ('renaming-step' if step in ('dep', 'wrap') else str(step))
         return [(f'append:{what}', f'plan-only {rel(only_plan)} written-only {rel(only_real)}')], info
     if len(append) != len(set(append)):
         fails.append(('append:duplicate-entries', str(rel(append))))
